@@ -51,6 +51,7 @@ class Echo(ExchangeState):
 class Svc(Protocol):
     def count(self) -> Stream[ProducerState]: ...
     def echo(self) -> Stream[ExchangeState]: ...
+    def talk(self) -> Stream[ProducerState]: ...
     def hello(self) -> int: ...
 
 
@@ -60,6 +61,9 @@ class Impl:
 
     def echo(self) -> Stream[Echo]:
         return Stream(output_schema=OUT, state=Echo(), input_schema=INP)
+
+    def talk(self) -> Stream["Talk"]:
+        return Stream(output_schema=OUT, state=Talk())
 
     def hello(self, ctx: CallContext) -> int:
         m = Message(Level.INFO, "hi")
@@ -127,6 +131,32 @@ def c08_http_exchange_tail() -> None:
         print(f"   {name}: on_log saw {[m.message for m in logs]}", "" if len(logs) == 2 else "  <- DEFECT: dropped")
 
 
+@dataclass
+class Talk(ProducerState):
+    n: int = 0
+
+    def produce(self, out: OutputCollector, ctx: CallContext) -> None:
+        self.n += 1
+        out.emit_pydict({"v": [self.n]})
+        ctx.client_log(Level.INFO, f"after batch {self.n}")
+
+
+def c08_http_producer_tail() -> None:
+    print("== C08: messages a producer logs after out.emit(), caller takes two batches and leaves")
+    for name in ("pipe", "http"):
+        logs: list = []
+        cm = _pipe(logs.append) if name == "pipe" else http_connect(
+            Svc, client=make_sync_client(RpcServer(Svc, Impl()), token_key=b"k" * 32), on_log=logs.append)
+        with cm as px:
+            s = px.talk()
+            it = iter(s)
+            next(it), next(it)
+            s.close()
+        want = ["after batch 1", "after batch 2"]
+        got = [m.message for m in logs]
+        print(f"   {name}: on_log saw {got}", "" if got == want else f"  <- DEFECT: expected {want}")
+
+
 def c08_peer_metadata() -> None:
     print("== C08: log metadata a peer may send")
     res = pa.schema([pa.field("result", pa.int64())])
@@ -167,6 +197,7 @@ if __name__ == "__main__":
     c10_http_cancel()
     c08_logs_before_error()
     c08_http_exchange_tail()
+    c08_http_producer_tail()
     c08_peer_metadata()
     import os
     import sys
